@@ -250,8 +250,33 @@ var c16scenarios = []c16scn{
 		{`(def n 0) (defn mk [#x] #x) (def th (mk (begin (set n (+ n 1)) n))) n`, "0"}, {`(force th)`, "1"}, {`(force th)`, "1"}, {`n`, "1"}}},
 }
 
+// c16siteScenarios: the expression of a lazy argument is evaluated with the bindings of the place where the call was
+// written -- the top level, a function, a let, a loop body -- however the receiver shadows the names it mentions.
+func c16siteScenarios() []c16scn {
+	sites := [][2]string{
+		{"toplevel", `(def a 7) (recv (+ a 1))`}, {"function", `(def a 1000) (defn caller [a] (recv (+ a 1))) (caller 7)`}, {"let", `(def a 1000) (let [a 7] (recv (+ a 1)))`},
+		{"toplevel-loop", `(def a 7) (def out 0) (for [(def i 0) (< i 1) (set i (+ i 1))] (set out (recv (+ a 1)))) out`}, {"toplevel-in-list", `(def a 7) (aget [(recv (+ a 1))] 0)`},
+	}
+	recvs := [][2]string{
+		{"direct", `(defn recv [#x] (force #x))`}, {"shadow-let", `(defn recv [#x] (let [a 100] (force #x)))`}, {"shadow-param", `(defn recv [#x] ((fn [a] (force #x)) 100))`},
+		{"saved-forced-in-other-function", `(def saved nil) (defn later [a] (force saved)) (defn recv [#x] (set saved #x) (later 50))`}, {"shadow-def", `(defn recv [#x] (def a 100) (force #x))`},
+		{"twice-under-two-lets", `(defn recv [#x] (let [a 100] (force #x)) (let [a 200] (force #x)))`}, {"shadow-let-substitute", `(defn recv [#x] (let [a 100] (str (substitute #x))))`},
+	}
+	var out []c16scn
+	for _, st := range sites {
+		for _, rv := range recvs {
+			want := "8"
+			if rv[0] == "shadow-let-substitute" {
+				want = `"(+ a 1)"` // substitute hands back the text
+			}
+			out = append(out, c16scn{"site/" + st[0] + "/" + rv[0], [][2]string{{rv[1] + " " + st[1], want}, {"(+ 1 2)", "3"}}})
+		}
+	}
+	return out
+}
+
 func c16runScenarios(c *engine.Ctx, only string) {
-	for _, sc := range c16scenarios {
+	for _, sc := range append(append([]c16scn{}, c16scenarios...), c16siteScenarios()...) {
 		w := "SCN|" + sc.name
 		if !(only == "" && c.Mine() || only == w) {
 			continue
